@@ -19,6 +19,34 @@ CLAIMS = {
                      "bounded histories; every transition (Fill/FillN/FindBin after NewEmpty/Construct) is executed on the real "
                      "object reached by the same history and the full C03 view compared after each call",
                 technique="TLA+ spec Hist1D + TLC invariants/action property; path-mode replay of the TLC state graph into physt"),
+    "C05": dict(spec="HistPool", design="5/C05",
+                text="TLC checks SumIsUnion (a sum is the histogram of the union of the data, via ghost bags), Commutative, Associative, "
+                     "Independence and RefusalIsNoOp on a pool of 3 histograms; every transition (New, Copy, +, +=, refused "
+                     "additions, foreign operands) is replayed and the snapshot of all live objects compared",
+                technique="TLA+ spec HistPool + TLC invariants; path-mode replay of the state graph into real histogram objects"),
+    "C06": dict(spec="HistPool", design="5/C06",
+                text="TLC checks MulDivIdentity, NormalTotal, MomentsScaleInvariant over exact rationals (numerator/denominator); "
+                     "chains of *, /, in-place variants, normalize and refused operands are replayed; bit-exact comparison while "
+                     "the history is dyadic, 64-ulp tolerance after a non-dyadic division",
+                technique="TLA+ spec HistPool (exact rational arithmetic) + TLC invariants; lockstep replay"),
+    "C12": dict(spec="HistPool", design="5/C12",
+                text="the pool's records are independent values (Independence is an action property TLC checks); the replay compares "
+                     "the snapshot of ALL live real objects after every derive/mutate step, so leakage through shared internals "
+                     "appears as a mismatch on the untouched object",
+                technique="TLA+ spec HistPool + TLC action property; all-objects snapshot comparison during replay"),
+    "C13": dict(spec="HistPool", design="5/C13",
+                text="dtype is a state component with numpy's promotion table transcribed (and verified against numpy at start-up); "
+                     "histories over 7 dtypes x 10 operation kinds replayed, reported dtype and both array dtypes and all values "
+                     "compared after each call; refused conversions must raise and change nothing",
+                technique="TLA+ spec HistPool (dtype lattice) + TLC; lockstep replay with dtype/value view"),
+    "C14": dict(spec="Hist1D+HistPool", design="5/C14",
+                text="TLC checks RawStatistics on Hist1D (moments of the ghost bag) and SumIsUnion/MomentsScaleInvariant on HistPool; "
+                     "replay compares weight/sum/sum2/min/max exactly on affine dyadic embeddings, median by the never-a-wrong-number rule",
+                technique="TLA+ specs Hist1D, HistPool + TLC invariants; lockstep replay with the statistics view"),
+    "C18": dict(spec="HistPool", design="5/C18",
+                text="every refusal disjunct is an action with UNCHANGED state (RefusalIsNoOp checked by TLC) interleaved by TLC at every "
+                     "position of bounded histories; the replay requires an exception and an unchanged snapshot; WellFormed on all states",
+                technique="TLA+ spec HistPool refusal actions + TLC; fault-injecting replay (exception + unchanged snapshot)"),
 }
 
 PENDING = {}
